@@ -9,6 +9,7 @@ package main
 import (
 	"fmt"
 	"os"
+	"strings"
 	"runtime"
 	"sort"
 	"strconv"
@@ -350,8 +351,15 @@ func suiteBackup(seed uint64, n int, work string) {
 		seg := []int{150, 200, 400}[r.Intn(3)]
 		// variants: 0 = mixed workload; 1 = no lists, a successful Merge on the same handle before the
 		// backup (the lock protocol must survive it); 2 = key/value heavy, more than ten segments
-		variant := i % 3
+		variant := i % 6
 		pv := p
+		if variant == 3 || variant == 5 {
+			// 3: a Merge is issued while the copy is under way; 5: a Backup is issued while Merge removes the old segments
+			pv.Txs = 10
+		}
+		if variant == 4 {
+			pv.Txs = 5 // 4: Backup is issued while a writer holds the lock; the writer's Commit rotates the segment
+		}
 		if variant == 1 {
 			pv.WList = 0
 			pv.Txs = 10
@@ -378,6 +386,11 @@ func suiteBackup(seed uint64, n int, work string) {
 			st.run("merge")
 		}
 		obs := obsCalls(p)
+		if variant == 4 || variant == 5 {
+			if suiteBackupLate(st, work, open, obs, variant, seg, i) {
+				continue
+			}
+		}
 		var before []string
 		for _, c := range obs {
 			before = append(before, st.run(c))
@@ -410,10 +423,19 @@ func suiteBackup(seed uint64, n int, work string) {
 				return tx.PutWithTimestamp("b1", []byte("a"), []byte("written-during-backup"), 0, 1700000000)
 			})
 		}()
+		mdone := make(chan error, 1)
+		if variant == 3 {
+			go func() { mdone <- st.db.Merge() }()
+		}
 		select {
 		case <-wdone:
 			emit("#SPEC a write transaction committed while Backup was copying the directory")
 			wdone <- nil
+		case err := <-mdone:
+			if err == nil {
+				emit("#SPEC Merge ran to completion while Backup was copying the directory")
+			}
+			mdone <- err
 		case <-time.After(150 * time.Millisecond):
 		}
 		wfd.Close()
@@ -421,6 +443,9 @@ func suiteBackup(seed uint64, n int, work string) {
 			emit("#SPEC backup failed: %v", err)
 		}
 		<-wdone
+		if variant == 3 {
+			<-mdone
+		}
 		os.Remove(fifo)
 		os.Remove(bdir + "/!sync")
 		// the writer's commit is now part of the source; bring model and spec up to date
@@ -440,7 +465,7 @@ func suiteBackup(seed uint64, n int, work string) {
 				after = append(after, st2.run(c))
 			}
 			nk, real := diffClass(after, before, obs)
-			if variant != 1 && real == "" && nk > 0 {
+			if variant != 1 && variant != 3 && real == "" && nk > 0 {
 				// without a Merge an empty structure keeps its existence across a reopen
 				for k := range obs {
 					if after[k] != before[k] {
@@ -460,4 +485,90 @@ func suiteBackup(seed uint64, n int, work string) {
 	}
 	st.reset()
 	os.RemoveAll(st.dir)
+}
+
+// suiteBackupLate: the two Backup schedules in which the copy must show a state LATER than the one at the call.
+//   variant 4: a write transaction holds the lock when Backup is called; its Commit (a record as large as a whole
+//     segment: the active segment is rotated) comes first, so the copy must contain that transaction;
+//   variant 5: Backup is called at the moment Merge removes the first old segment; Merge holds the lock until it
+//     is done, so the copy must be the merged directory (the same contents as the source reopened).
+// Returns true when the case is finished.
+func suiteBackupLate(st *St, work, open string, obs []string, variant, seg, i int) bool {
+	bdir := st.dir + "_bak"
+	os.RemoveAll(bdir)
+	bdone := make(chan error, 1)
+	if variant == 4 {
+		if st.run("begin w ?") != "ok" {
+			return true
+		}
+		go func() { bdone <- st.db.Backup(bdir) }()
+		time.Sleep(60 * time.Millisecond) // Backup is now waiting for the lock (or has not started: then nothing is tested)
+		st.run(fmt.Sprintf("put %s %s %s 0 1700000000", hx([]byte("b1")), hx([]byte("a")), hx([]byte(strings.Repeat("\x02", seg-42-2-1)))))
+		cres := st.run("commit")
+		st.run("rollback")
+		if err := <-bdone; err != nil {
+			emit("#SPEC backup failed: %v", err)
+		}
+		_ = cres
+	} else {
+		started := false
+		prev := nutsdb.VerifObserver
+		nutsdb.VerifObserver = func(op, path string, off int64, d []byte) error {
+			if op == "remove" && strings.HasSuffix(path, ".dat") && !started {
+				started = true
+				go func() { bdone <- st.db.Backup(bdir) }()
+				// with the lock held by Merge, Backup cannot finish before this callback returns
+				select {
+				case err := <-bdone:
+					bdone <- err
+				case <-time.After(120 * time.Millisecond):
+				}
+			}
+			return prev(op, path, off, d)
+		}
+		mres := st.run("merge")
+		nutsdb.VerifObserver = prev
+		if !started {
+			return true // Merge had nothing to remove
+		}
+		if err := <-bdone; err != nil {
+			emit("#SPEC backup failed: %v (merge=%s)", err, mres)
+		}
+	}
+	// the source, closed and reopened, is the reference: the copy was taken from the same files
+	st.comment = true
+	st.run("close")
+	st.db = nil
+	var before []string
+	if st.run(open) != "ok" {
+		emit("#SPEC open-failed on the source after the backup (variant %d)", variant)
+		st.comment = false
+		return true
+	}
+	for _, c := range obs {
+		before = append(before, st.run(c))
+	}
+	st.closeQuiet()
+	st.comment = false
+	st2 := NewSt(work)
+	st2.comment = true
+	st2.dir = bdir
+	if st2.run(open) != "ok" {
+		emit("#SPEC open-failed on the backup copy (%s, variant %d)", open, variant)
+	} else {
+		var after []string
+		for _, c := range obs {
+			after = append(after, st2.run(c))
+		}
+		for k := range obs {
+			if after[k] != before[k] {
+				emit("#SPEC backup copy differs from the source (variant %d: the copy must contain %s): call %q backup=%q source=%q", variant,
+					map[int]string{4: "the transaction that held the lock when Backup was called", 5: "the merged directory"}[variant], obs[k], after[k], before[k])
+				break
+			}
+		}
+		st2.closeQuiet()
+	}
+	os.RemoveAll(bdir)
+	return true
 }
